@@ -55,6 +55,15 @@ for p in sorted(glob.glob(os.path.join(V, "evidence", "C*.json"))):
     e = json.load(open(p))
     c = e["coverage"]
     rows.append(f"| {e['property_id']} | {e['level']} | {c.get('shapes')} | {c.get('paths_explored')} | {c.get('queries_by_status')} | {c.get('inconclusive_count')} | {c.get('traces_validated_against_impl')} | {c.get('solver_s')} | {e['wall_s']} ({e['tier']}) |")
-put("TIMING_TABLE", "Last recorded runs (from `evidence/*.json`):\n\n" + "\n".join(rows))
+body = "Last recorded runs (from `evidence/*.json`):\n\n" + "\n".join(rows)
+tp = os.path.join(V, "thorough_results.json")
+if os.path.exists(tp):
+    tr = json.load(open(tp))
+    rows = ["| Check | bounds | shapes | paths | queries by status | inconclusive (incomplete shapes, unknowns) | cross-checked traces | solver s | wall s | per-shape budget s |", "|---|---|---|---|---|---|---|---|---|---|"]
+    for k in sorted(tr):
+        r = tr[k]
+        rows.append(f"| {k} | {json.dumps(r.get('bounds'))[:200]} | {r.get('shapes')} | {r.get('paths')} | {r.get('queries_by_status')} | {r.get('inconclusive_count')} | {r.get('traces_validated_against_impl')} | {r.get('solver_s')} | {r.get('wall_s')} | {r.get('per_shape_time_budget_s')} |")
+    body += "\n\nThorough tier, last end-to-end runs (`thorough_results.json`, written by `tools/save_thorough.py`; all exit 0, no violation):\n\n" + "\n".join(rows)
+put("TIMING_TABLE", body)
 open(os.path.join(V, "DESIGN.md"), "w").write(d)
 print("DESIGN.md tables regenerated")
